@@ -54,7 +54,7 @@ namespace
 // ---------------------------------------------------------------------------------------------------------------------
 Params g_params;
 quill::ManualBackendWorker* g_worker = nullptr;
-quill::Logger* g_logger = nullptr;
+FLogger* g_logger = nullptr;
 std::vector<std::string> g_recorded; // log_message of every write_log since the last drain
 std::vector<quill::LogLevel> g_recorded_level;
 std::vector<std::string> g_notes;    // error_notifier messages since the last drain
@@ -1058,7 +1058,11 @@ void Ctx::after_log(Prepared* pp, bool accepted)
 {
   auto& p = *static_cast<Pending*>(pp);
   p.logged = accepted;
+#if defined(FMTCAT_DROPPING)
+  if (!accepted) { r.label("statement_dropped"); r.count("dropped"); }
+#else
   if (!accepted) r.fail("log_statement returned false on an unbounded blocking queue (shape " + p.shape + ")");
+#endif
   r.count("statements");
   r.label("mutated_after_call");
 }
@@ -1123,8 +1127,8 @@ static void ensure_backend()
   bo.log_timestamp_ordering_grace_period = std::chrono::microseconds{0};
   g_worker->init(bo);
 
-  auto sink = quill::Frontend::create_or_get_sink<RecordingSink>("fmtcat_recording_sink");
-  g_logger = quill::Frontend::create_or_get_logger(
+  auto sink = FFrontend::create_or_get_sink<RecordingSink>("fmtcat_recording_sink");
+  g_logger = FFrontend::create_or_get_logger(
     "fmtcat", std::move(sink),
     quill::PatternFormatterOptions{"%(message)", "%H:%M:%S.%Qns", quill::Timezone::GmtTime, false},
     quill::ClockSourceType::System);
@@ -1150,7 +1154,7 @@ void run_case(Choices& c, Report& r)
   // canonical start state of both size caches (a no-op for correct code, which clears them whenever it uses them;
   // it keeps a case a pure function of its choices even when a mutated tree forgets to)
   g_cache.clear();
-  quill::detail::get_local_thread_context<quill::FrontendOptions>()->get_conditional_arg_size_cache().clear();
+  quill::detail::get_local_thread_context<FmtcatFrontendOptions>()->get_conditional_arg_size_cache().clear();
 
   std::vector<std::unique_ptr<std::string>> keep;
   Ctx cx{c, r};
